@@ -46,3 +46,14 @@ let () = register "src_tagged_getrv" (fun a -> scalar (srcrun_varintTaggedGet64R
 let () = register "src_tagged_add" (fun a ->
   let b = bytes_of_hex a.(0) and add = cz_of_string a.(1) in
   put_like (if a.(2) <> "0" then srcrun_varintTaggedAddGrow b add else srcrun_varintTaggedAddNoGrow b add))
+
+(* the header's Quick macros (translated through wrapper functions) *)
+let buf_only r =
+  match r with
+  | Some (COk out) -> out_hex "buf" out
+  | _ -> out_str "buf" (why r)
+let () = register "src_tagged_lenq" (fun a -> scalar (srcrun_q_varintTaggedLenQuick (cz_of_string a.(0))))
+let () = register "src_tagged_getlenq" (fun a -> scalar (srcrun_q_varintTaggedGetLenQuick_ (bytes_of_hex a.(0))))
+let () = register "src_tagged_getq" (fun a -> scalar (srcrun_q_varintTaggedGet64Quick_ (bytes_of_hex a.(0))))
+let () = register "src_tagged_fixedq" (fun a ->
+  buf_only (srcrun_q_varintTaggedPut64FixedWidthQuick_ (bytes_of_hex a.(2)) (cz_of_string a.(0)) (cz_of_string a.(1))))
